@@ -19,6 +19,10 @@ type lrStep struct {
 	Before  lrm.Config
 	After   lrm.Config
 	Res     lrm.StepResult
+	// HasRef: the grammar's conflicts are all resolved by the rule of C04 and the reference
+	// table was run in lockstep; RefOut is what a parser built to the declarations does here
+	HasRef bool
+	RefOut lrm.Outcome
 }
 
 type lrExplorer struct {
@@ -31,6 +35,7 @@ type lrExplorer struct {
 	terms               []int
 	States, Transitions int64
 	visit               func(s *lrStep)
+	refM                *lrm.Machine // optional: the reference table as a machine (reference symbol ids)
 }
 
 func (x *lrExplorer) run() {
@@ -41,7 +46,7 @@ func (x *lrExplorer) run() {
 		}
 	}
 	x.e = ref.NewEarley(x.g)
-	x.dfs(lrm.Initial(), x.e.Start(), nil)
+	x.dfs(lrm.Initial(), lrm.Config{St: []int{0}, Sym: []int{x.g.EOF()}}, x.refM != nil, x.e.Start(), nil)
 }
 
 func (x *lrExplorer) ysym(tok int) int {
@@ -51,7 +56,7 @@ func (x *lrExplorer) ysym(tok int) int {
 	return x.vw.RefToSym[tok]
 }
 
-func (x *lrExplorer) dfs(c lrm.Config, chart []*ref.ESet, prefix []int) {
+func (x *lrExplorer) dfs(c lrm.Config, rc lrm.Config, rsync bool, chart []*ref.ESet, prefix []int) {
 	x.States++
 	alpha := append([]int(nil), x.terms...)
 	alpha = append(alpha, x.g.EOF())
@@ -62,6 +67,16 @@ func (x *lrExplorer) dfs(c lrm.Config, chart []*ref.ESet, prefix []int) {
 		next, res := x.m.Step(c, x.ysym(tok), 4000)
 		x.Transitions++
 		st := &lrStep{Prefix: prefix, Tok: tok, Viable: chart != nil, Before: c, After: next, Res: res}
+		var rnext lrm.Config
+		if rsync {
+			rtok := tok
+			if tok < 0 {
+				rtok = len(x.g.Names) + 1 // a symbol the reference table has no column for
+			}
+			var rres lrm.StepResult
+			rnext, rres = x.refM.Step(rc, rtok, 4000)
+			st.HasRef, st.RefOut = true, rres.Out
+		}
 		if chart != nil {
 			switch {
 			case tok == x.g.EOF():
@@ -78,7 +93,7 @@ func (x *lrExplorer) dfs(c lrm.Config, chart []*ref.ESet, prefix []int) {
 					nchart = nc
 				}
 			}
-			x.dfs(next, nchart, append(append([]int(nil), prefix...), tok))
+			x.dfs(next, rnext, rsync && st.RefOut == lrm.Shifted, nchart, append(append([]int(nil), prefix...), tok))
 		}
 	}
 }
@@ -145,4 +160,40 @@ func stackText(g *ref.Grammar, vw *ygo.View, syms []int) string {
 		}
 	}
 	return "[" + strings.Join(p, " ") + "]"
+}
+
+// refMachine turns the reference table (every conflict resolved as C04
+// prescribes) into a machine for the abstract driver, over reference ids.
+func refMachine(g *ref.Grammar, t *ref.Table) *lrm.Machine {
+	const errCode, accCode = 1 << 28, 1<<28 + 1
+	m := &lrm.Machine{NStates: len(t.A.States), NSyms: len(g.Names) + 1, Err: errCode, Acc: accCode}
+	for _, r := range g.Rules {
+		m.RuleLHS = append(m.RuleLHS, r.L)
+		m.RuleLen = append(m.RuleLen, len(r.R))
+	}
+	m.Lookup = func(s, a int) (int, bool) {
+		if s < 0 || s >= len(t.A.States) {
+			return 0, false
+		}
+		if a < len(g.Names) && g.IsNT[a] {
+			if to, ok := t.A.States[s].Trans[a]; ok {
+				return to, true
+			}
+			return errCode, true
+		}
+		if a > g.EOF() {
+			return errCode, true
+		}
+		act := t.Action(s, a)
+		switch act.Kind {
+		case ref.Shift:
+			return act.Arg, true
+		case ref.Reduce:
+			return -act.Arg, true
+		case ref.Accept:
+			return accCode, true
+		}
+		return errCode, true
+	}
+	return m
 }
